@@ -344,6 +344,16 @@ class Calls:
     def call_function(self, fi: FuncInfo, args: List[V], kwargs: Dict[str, V], node: Any, fr: Frame,
                       closure: Optional[Frame] = None) -> V:
         env = self.bind_args(fi, args, kwargs, node, fr)
+        if fi.module.name.startswith("specs.") and fi.cls is None:
+            conc = self.all_concrete(list(env.values()))
+            if conc is not None:
+                # a spec function on fully concrete arguments is simply run
+                import importlib
+                try:
+                    mod = importlib.import_module(fi.module.name)
+                    return self.from_py(getattr(mod, fi.name)(**dict(zip(env.keys(), conc))))
+                except ImportError:
+                    pass
         contract = self.engine.contract_for(fi.qualname)
         unit = self.unit
         use_contract = False
@@ -358,6 +368,21 @@ class Calls:
         if use_contract:
             return self.call_by_contract(fi, contract, env, node, fr)
         return self.call_inline(fi, env, node, fr, closure)
+
+    def all_concrete(self, vals: List[V]) -> Optional[List[Any]]:
+        out: List[Any] = []
+        for v in vals:
+            if isinstance(v, VStr) and v.py is not None:
+                out.append(v.py.encode("latin-1") if v.is_bytes else v.py)
+            elif isinstance(v, VInt) and v.concrete() is not None:
+                out.append(v.concrete())
+            elif isinstance(v, VBool) and v.concrete() is not None:
+                out.append(v.concrete())
+            elif isinstance(v, VNoneT):
+                out.append(None)
+            else:
+                return None
+        return out
 
     def on_stack(self, fi: FuncInfo, fr: Frame) -> bool:
         f: Optional[Frame] = fr
@@ -436,6 +461,17 @@ class Calls:
                 o = Obligation(f"{fname}:precondition:{fi.name}:{nm}@{self.rel(fr, line)}", "precondition", fname, line,
                                f"requires of {fi.qualname}: {ex}")
                 self.path.oblige(self.goal_term(goal), o)
+        # old(...) values of the callee's postconditions are taken before its frame is havocked
+        if contract is not None:
+            olds: Dict[str, V] = {}
+            for nm, ex in contract.ensures:
+                for n in ast.walk(self.parse_spec(ex)):
+                    if isinstance(n, ast.Call) and isinstance(n.func, ast.Name) and n.func.id == "old":
+                        try:
+                            olds[ast.dump(n.args[0])] = self.eval_spec(ast.unparse(n.args[0]), cfr)
+                        except Unsupported:
+                            pass
+            cfr.olds = olds  # type: ignore
         # frame: havoc what the callee may modify
         if contract is not None:
             for pname in contract.modifies:
@@ -524,8 +560,16 @@ class Calls:
                 self.call_function(init, [obj] + args, kwargs, node, fr)
                 e.obj = obj  # type: ignore
             return e
-        obj = ConcObj(cls)
         init = cls.find_method("__init__")
+        if init is not None:
+            ic = self.engine.contract_for(init.qualname)
+            if (ic is not None and ic.use_as_callee and init.qualname not in getattr(self.unit, "inline", ())
+                    and not fr.in_spec) or init.qualname in getattr(self.unit, "opaque", ()):
+                # constructor by contract: a fresh symbolic instance constrained by the postconditions
+                sobj = self.mk_instance(cls, self.path.fresh_name("new_" + cls.name), ())
+                self.call_function(init, [sobj] + args, kwargs, node, fr)
+                return sobj
+        obj = ConcObj(cls)
         if init is not None:
             self.call_function(init, [obj] + args, kwargs, node, fr)
         elif args or kwargs:
